@@ -227,6 +227,38 @@ def c16_cases(rng, count):
         out.append(case([("fa", content)], ["fa"], lines))
     return out
 
+def c01_cases(rng, count):
+    """C01 at the ex level: buffers of 0..n lines (some of 4 KiB and more) written with :w, :w! other, range writes and
+    :wq over targets that are absent, empty, shorter, equal or longer than what is written; reads of files with
+    and without a final newline written back unedited"""
+    out = []
+    def content():
+        k = rng.below(8)
+        if k == 0: return ""
+        if k == 1: return "x" * rng.choice([4094, 4095, 4096, 4097, 5000]) + "\n" + rand_content(rng, 3)
+        if k == 2: return "\n".join("l%d" % i for i in range(rng.choice([1, 2, 3, 600]))) + ("\n" if rng.below(3) else "")
+        return rand_content(rng, 6)
+    for _ in range(count):
+        files = [("f0", content()), ("f1", content() if rng.below(4) else None), ("f2", "old old old old old old old\nsecond old line\nthird\n")]
+        lines = []
+        for _ in range(1 + rng.below(5)):
+            k = rng.below(12)
+            if k == 0: lines.append("%d")
+            elif k == 1: lines.append(rng.choice(["1d", "$d", "1,2d", "2,$d"]))
+            elif k == 2: lines += ["a", rng.choice(WORDS), "."]
+            elif k == 3: lines.append("w")
+            elif k == 4: lines.append("w! " + rng.choice(["f1", "f2"]))
+            elif k == 5: lines.append(rng.choice(["1,2w! ", "1w! ", "2,$w! ", "%w! "]) + rng.choice(["f1", "f2"]))
+            elif k == 6: lines.append("e! " + rng.choice(["f0", "f1", "f2"]))
+            elif k == 7: lines.append("%d|w")
+            elif k == 8: lines.append("%d|w! " + rng.choice(["f1", "f2"]))
+            elif k == 9: lines.append("u")
+            elif k == 10: lines.append("1,2w")
+            else: lines.append("w! f2")
+        lines += [rng.choice(["w", "wq", "x", "w! f2"]), "q!"]
+        out.append(case(files, ["f0"], lines))
+    return out
+
 GLOB_PATS = ["m", "a", "^$", "o", "x", "1", "."]
 GLOB_CMDS = ["d", "s/m/M/", "s/o/0/g", "pu a", "a\\", "-1d", "+1d", "-2,-1d|+1", "d|d", ".,+1d", "+1,+2d", "k a", "p", "s/$/!/", "-1,.d", "1d", "$d", "pu a|-1d", "g/o/d", "g/1/s/m/W/", "v/m/d", "y a|pu a", "+1s/./Q/", "+1d|-1", "m0", "m$", "co0", "co.", "t$", "m+1", "-1m$", "m0|+1", "+1m0", "+1m0|+2", "co0|d", "i\\", "c\\", "s/^/>/|-1d", "g/./s/$/;/", "1,2d", "$m0"]
 
@@ -251,6 +283,9 @@ def c15_cases(rng, count):
         pool = ["m%d" % i for i in range(1, 8)] + ["a", "b", "z", "oo", "mo", "x1", "o1"]
         content = "\n".join(rng.choice(pool) + str(i) for i in range(n)) + "\n"
         lines = ["1,2y a"] if rng.below(2) else ["rs a", "Ins", "."]
+        # globals that fail before they start (no previous pattern, a pattern that does not compile, a bad range)
+        if rng.below(5) == 0:
+            lines = [rng.choice(["g//d", "g/[a/d", "v/\\(/d", "9,1g/./d", "g/m"])] * rng.choice([1, 1, 2, 7, 8]) + lines
         rg = rng.choice(["", "", "%", "2,$", "1,3", "2,4", ".,$"])
         lines.append("%s%s/%s/%s" % (rg, rng.choice(["g", "g", "v", "g!"]), rng.choice(GLOB_PATS), rng.choice(GLOB_CMDS)))
         lines += ["%p", "u", "%p", "q!"]
